@@ -135,7 +135,8 @@ def secidxLoop (wantIndex : Bool) : Nat → Cfg → List (Nat × Nat) → Option
       let len := secname.length
       let after := name.drop len
       if !wantIndex && after.isEmpty then finish
-      else if len == 0 then finish
+      -- an empty step name (`sec|=x`, a leading `=` or `|`) names no section (fix F46: `cfg_rmsec(cfg, "sec|=x")` removed `sec`)
+      else if len == 0 then (if wantIndex then ⟨none, lastIdx, []⟩ else finish)
       else
         -- the do { } while(0) block
         match pathOpt sec secname with
